@@ -62,7 +62,8 @@ theorem decompose_unique (pre cur pre' cur' : Bytes)
   · have e := key pre' cur' pre cur hp hc' h.symm hl
     subst e; exact ⟨rfl, List.append_cancel_left h⟩
 
-/-- C12, `GetLineAndCol`: for every offset, the line is 1 + the number of newlines before the
+/-- C12, `GetLineAndCol`: for every offset within the text (written as in `decompose`; offsets
+    beyond the end: `pos_beyond_end`), the line is 1 + the number of newlines before the
     offset, the column is the distance to the start of that line, and the quoted text is that
     whole line without its newline. -/
 theorem getLineAndCol_spec (pre cur after : Bytes)
@@ -251,8 +252,8 @@ theorem illegal_char_exact (s : LexState) (e : SynErr) (h : Lexer.next s = .erro
 open Lexer in
 /-- C12: … and the offending byte is one that cannot start a token: it is not a newline, `$`,
     a digit, a letter, `_`, an operator or bracket byte, or a quote (`canStartToken`), nor `&`
-    or `|`; or it is an `&` / `|` that is not doubled.  Conversely every such byte is rejected
-    with exactly this error at exactly its offset. -/
+    or `|`; or it is an `&` / `|` that is not doubled.  (A partial converse is
+    `illegal_char_rejected`.) -/
 theorem illegal_char_byte (s : LexState) (e : SynErr) (h : Lexer.next s = .error e)
     (hm : e.msg = "unexpected character") :
     ∃ ws c rest, s.rest = ws ++ c :: rest ∧ e.pos = s.pos + ws.length ∧
@@ -269,6 +270,10 @@ theorem illegal_char_byte (s : LexState) (e : SynErr) (h : Lexer.next s = .error
     · simp at hm
 
 open Lexer in
+/-- Partial converse of `illegal_char_byte`: a byte that cannot start a token and is none of
+    `&`, `|`, `#`, blank, tab, CR is rejected with "unexpected character" at exactly its offset,
+    when only blanks, tabs and CRs precede it.  (Not covered: a comment before it; a lone `&` or
+    `|`.) -/
 theorem illegal_char_rejected (ws rest : Bytes) (c : UInt8) (p ts : Nat)
     (hws : ∀ b ∈ ws, b = 32 ∨ b = 9 ∨ b = 13)
     (hc : canStartToken c = false) (h38 : c ≠ 38) (h124 : c ≠ 124) (h35 : c ≠ 35)
@@ -286,6 +291,10 @@ theorem illegal_char_rejected (ws rest : Bytes) (c : UInt8) (p ts : Nat)
 
 example : Lexer.canStartToken 64 = false ∧ Lexer.canStartToken 96 = false ∧
     Lexer.canStartToken 92 = false := by decide
+/-- non-vacuity of the hypotheses of `illegal_char_rejected`: `@` behind a blank and a tab -/
+example : Lexer.next ⟨b!" \t" ++ 64 :: b!" b", 5, 1⟩ = .error ⟨7, "unexpected character"⟩ :=
+  illegal_char_rejected b!" \t" b!" b" 64 5 1 (by decide) (by decide) (by decide) (by decide)
+    (by decide) (by decide)
 
 example : Lexer.next ⟨b!" \t# c\n", 0, 0⟩ = .ok (⟨.newline, 5, []⟩, ⟨[], 6, 5⟩) := by rfl
 example : Lexer.next ⟨b!"\n  @ b", 1, 0⟩ = .ok (⟨.newline, 1, []⟩, ⟨b!"  @ b", 2, 1⟩) := by rfl
@@ -329,6 +338,9 @@ theorem next_preserves_invariant (src : Bytes) (s : LexState) (t : Token) (s' : 
   congr 1; omega
 
 example : (LexState.init b!"ab").rest = (b!"ab").drop (LexState.init b!"ab").pos := rfl
+/-- non-vacuity of both hypotheses together: a second step, from a state satisfying the invariant -/
+example : Lexer.next ⟨b!" += 1 }", 3, 2⟩ = .ok (⟨.plusEqual, 4, []⟩, ⟨b!" 1 }", 6, 4⟩) ∧
+    b!" += 1 }" = (b!"{ x += 1 }").drop 3 := ⟨by rfl, by decide⟩
 
 /-! ### 5. provenance: every reported position is the offset of a token of the text
 
@@ -359,10 +371,11 @@ abbrev IsTokenStart (src : Bytes) (p : Nat) : Prop := TokenStart AfterSlash src 
 /-- `e` is a lexical error of the text `src` -/
 abbrev IsLexErr (src : Bytes) (e : SynErr) : Prop := IsLexErrOf AfterSlash src e
 
-/-- C12, tokens: **every token of a text is written in the text at the offset it carries**:
-    keywords and operators by their spelling, identifiers and numbers by their text, a string
-    between two equal quotes (the offset is that of the first byte after the opening quote), a
-    regex literal between two slashes (likewise). -/
+/-- C12, tokens: **every token of a text other than EOF is written in the text at the offset it
+    carries**: keywords and operators by their spelling, identifiers and numbers by their text,
+    a string between two equal quotes (the offset is that of the first byte after the opening
+    quote), a regex literal between two slashes (likewise).  For the EOF token `SpelledIn` is
+    `True` (nothing is claimed here; its offset is settled by `eof_token_pos`). -/
 theorem token_spelled (src : Bytes) (t : Token) (h : IsToken src t) : SpelledIn src t :=
   h.spelled
 
@@ -408,6 +421,15 @@ theorem eof_token_pos_last (src : Bytes) (last : Token) (s : LexState) (t : Toke
     · exact absurd he h2
     · rw [h2] at he; cases he
 
+/-- non-vacuity of the hypotheses of `eof_token_pos` and `eof_token_pos_last`: the EOF token of
+    `1 ` (offset 0, that of the `1`) and the state it is produced in -/
+example : IsToken b!"1 " ⟨.eof, 0, []⟩ ∧ (⟨.eof, 0, []⟩ : Token).tag = .eof :=
+  ⟨⟨_, _, _, .next .init (t := ⟨.num, 0, b!"1"⟩) (s' := ⟨b!" ", 1, 0⟩) (by rfl), .inl (by rfl)⟩,
+    rfl⟩
+example : Lexed AfterSlash b!"1 " ⟨.num, 0, b!"1"⟩ ⟨b!" ", 1, 0⟩ ∧
+    Lexer.next ⟨b!" ", 1, 0⟩ = .ok (⟨.eof, 0, []⟩, ⟨[], 2, 0⟩) :=
+  ⟨.next .init (by rfl), by rfl⟩
+
 /-- witness: after `{ print 1 +` the error is reported at offset 10 (the `+`), not 11 -/
 example : (match parseProgramSrc expectedRuleTable b!"{ print 1 +" with
     | .syntaxErr e => e.pos == 10 | _ => false) = true := by decide +kernel
@@ -435,10 +457,18 @@ theorem tokenStart_meaning (src : Bytes) (p : Nat) (h : IsTokenStart src p) :
 theorem tokenStart_in_text (src : Bytes) (p : Nat) (h : IsTokenStart src p) : p ≤ src.length :=
   h.le
 
-/-- C12, lexical errors reached by the parser: the offset lies in the text; it is the offset of
-    the illegal byte (`illegal_char_exact`), or the offset just behind the opening quote of a
-    string that is never closed (where the string token would start), or — for a regex literal
-    that is never closed — the offset of the `/` token before it. -/
+/-- non-vacuity of `IsTokenStart` (both cases of `tokenStart_meaning`) -/
+example : IsTokenStart b!"  foo(1)" 2 := ⟨⟨.ident, 2, b!"foo"⟩, ⟨_, _, _, .init, .inl (by rfl)⟩, rfl⟩
+example : IsTokenStart b!"  # hi" 0 ∧ NoToken b!"  # hi" :=
+  ⟨⟨⟨.eof, 0, []⟩, ⟨_, _, _, .init, .inl (by rfl)⟩, rfl⟩, ⟨_, by rfl⟩⟩
+
+/-- C12, lexical errors reached by the parser: the offset lies in the text; for "unexpected
+    character" a byte stands there (that it is the illegal byte is NOT restated here: it follows
+    from `illegal_char_exact` / `illegal_char_byte` applied to the lexer state, with the
+    invariant `next_preserves_invariant`); or it is the offset just behind the opening quote of a
+    string that is never closed (where the string token would start); or — for a regex literal
+    that is never closed — the offset of some token of the text (in the model the `/` before it;
+    which token is not stated). -/
 theorem lexical_error_pos (src : Bytes) (e : SynErr) (h : IsLexErr src e) :
     e.pos ≤ src.length ∧
     ((e.msg = "unexpected character" ∧ ∃ c, src[e.pos]? = some c) ∨
@@ -454,6 +484,8 @@ theorem lexical_error_pos (src : Bytes) (e : SynErr) (h : IsLexErr src e) :
     · exact .inr (.inr ⟨hm, h2⟩)
     · cases hq
 
+/-- non-vacuity of `IsLexErr`, directly -/
+example : IsLexErr b!"  @" ⟨2, "unexpected character"⟩ := ⟨_, _, .init, .inl (by rfl)⟩
 example : (match parseProgramSrc expectedRuleTable b!"BEGIN { x = 1 }\n   @" with
     | .syntaxErr e => e.pos == 19 && getLineAndCol b!"BEGIN { x = 1 }\n   @" e.pos == ⟨b!"   @", 2, 3⟩
     | _ => false) = true := by decide +kernel
@@ -462,8 +494,9 @@ example : (match parseProgramSrc expectedRuleTable b!"{ print $ ~ /ab }" with
 example : (match parseProgramSrc expectedRuleTable b!"{ print 'ab }" with
     | .syntaxErr e => e.pos == 9 | _ => false) = true := by decide +kernel
 
-/-- C12, syntax errors (clause "the quoted line is exactly line N of the program text … the
-    reported column falls inside the offending construct"): where the reported offset comes from.
+/-- C12, syntax errors: where the reported offset comes from — SOME token of the program text,
+    or a lexical error of it.  (This is weaker than the clause "the reported column falls inside
+    the offending construct": which token is blamed is not stated; see the examples.)
     Named `_partial` with respect to the stronger statement first planned, "every syntax error
     offset is the start of a token", which is false as it stands (the property itself does not
     ask for it): **a syntax error of `Parse()` carries the offset of a token of the
@@ -601,13 +634,17 @@ theorem parsed_blame_tokens (tbl : RuleTable) (hT : TblRq AfterSlash tbl) (src :
   rw [h] at this; exact this.blame
 
 /-- C12, AST of a selector: every token of a parsed selector expression carries the offset of a
-    token of the selector text. -/
+    token of the selector text.  (Non-vacuity: the example below.) -/
 theorem selector_tokens_are_tokens (tbl : RuleTable) (hT : TblRq AfterSlash tbl) (sel : Bytes)
     (expr : Expr) (h : parseExpressionSrc tbl sel = .ok expr) (kw : Bool) :
     ∀ t ∈ expr.tokens kw, IsTokenStart sel t.pos := by
   have := parseExpressionSrc_prov AfterSlash kw tbl hT sel
   rw [h] at this; exact this
 
+/-- non-vacuity of `selector_tokens_are_tokens`: a selector that parses, with its token offsets -/
+example : (match parseExpressionSrc expectedRuleTable b!"  $.a ~ 1" with
+    | .ok e => (e.tokens false).map (·.pos) != [] && (e.tokens false).all (fun t => t.pos < 9)
+    | _ => false) = true := by decide +kernel
 example : (match parseProgramSrc expectedRuleTable
       b!"function f(x) {\n  return x.a.b.c = 1\n}\n{ print f(1) }" with
     | .ok p => p.blameTokens.length == 12 && p.tokens.length == 15 | _ => false) = true := by
@@ -628,7 +665,10 @@ def SynErrOf (tbl : RuleTable) (src : Bytes) (sels : List Bytes) (s : Bytes) (e 
   (s = src ∧ parseProgramSrc tbl src = .syntaxErr e) ∨
   (s ∈ sels ∧ parseExpressionSrc tbl s = .syntaxErr e)
 
-/-- all positions a run reports, in one statement (any rule table, any selectors, any input) -/
+/-- all positions a run reports, in one statement (any rule table, any selectors, any input).
+    Only the outcomes `.runtimeErr` and `.syntaxErr` carry a position; for every other outcome
+    (`.ok`, `.jsonErr`, and also `.oof`, `.panic`, `.unmodelled`) `OutcomeOK` is `True`, i.e.
+    nothing is claimed. -/
 theorem run_positions (tbl : RuleTable) (src : Bytes) (sels : List Bytes) (files : List InputFile) :
     OutcomeOK (BlamesAst tbl src sels) (SynErrOf tbl src sels) src sels
       (evalProgram tbl src sels files).outcome := by
@@ -644,11 +684,13 @@ theorem run_positions (tbl : RuleTable) (src : Bytes) (sels : List Bytes) (files
     · intro sel hsel e he
       exact .inr ⟨hsel, he⟩
 
-/-- C12, runtime errors (clause "the reported column falls inside the offending construct": the
-    offset is that of a token of the faulting node): **the position of a runtime error a run reports is the offset stored in a token of
-    the parsed program — of a rule pattern, a rule body, a function body called from there, a
-    match arm — and the text reported with it is the program text; or it is the offset stored in
-    a token of a parsed `-r` selector expression and the text reported is that selector's text.**
+/-- C12, runtime errors: **the position of a runtime error a run reports is the offset stored in
+    SOME token of the parsed program (`Program.blameTokens`: rule patterns, rule bodies, function
+    bodies, match arms) and the text reported with it is the program text; or it is the offset
+    stored in some token of a parsed `-r` selector expression and the text reported is that
+    selector's text.**  Which token — i.e. that it belongs to the faulting node, the clause "the
+    reported column falls inside the offending construct" — is NOT stated; only the examples at
+    the end of the file show it, on instances.
     Any rule table, any selectors, any input files, at the evaluator's full fuel. -/
 theorem runtime_error_pos_is_token (tbl : RuleTable) (src : Bytes) (sels : List Bytes)
     (files : List InputFile) (s : Bytes) (pos : Nat) (msg : String)
